@@ -229,6 +229,14 @@ Proof.
   eapply Forall_impl; [|exact H]. intros ch Hg. apply good_wn_01; auto.
 Qed.
 
+Lemma children_simple_01 cs c istart e p : children_simple cs c istart e -> all01 (child_wns cs c istart e p).
+Proof.
+  unfold children_simple, all01, child_wns. intro H. apply Forall_map.
+  eapply Forall_impl; [|exact H]. intros ch Hg. apply simple_wn_01; auto.
+Qed.
+Lemma children_good_simple cs c istart e : children_good cs c istart e -> children_simple cs c istart e.
+Proof. unfold children_good, children_simple. intro H. eapply Forall_impl; [|exact H]. intros ch. apply good_simple. Qed.
+
 (** a proper subdivision into positively oriented triangles / strictly convex quadrilaterals
     tiles: a point the parent contains lies in exactly one child, a point it does not contain
     in none -- for all points of the plane *)
@@ -286,4 +294,72 @@ Proof.
   - intros i Hi Si. apply good_wn_inside; auto. eapply Hpar1; eauto.
   - intro Sp. pose proof (good_inside_wn cs p Hpar Sp) as W. destruct (H1 W) as (i & Hi & Ei & _).
     rewrite Hlen in Hi. exists i. split; auto. apply good_wn_inside; auto. rewrite <- nth_child_wns; auto.
+Qed.
+
+(** ** composition.  [tiles P cols]: every point of the plane lies in exactly one of [cols] if P
+    contains it and in none otherwise (crossing-number membership).  If op1 tiles P by columns
+    among which C, and op2 tiles C by G, then replacing C by G still tiles P; hence every finite
+    sequence of tiling steps applied to a mesh leaves every point covered exactly as before. *)
+Definition wns (cols : list (list pt)) (p : pt) : list Z := map (fun l => wn l p) cols.
+Definition tiles (P : list pt) (cols : list (list pt)) : Prop :=
+  forall p, all01 (wns cols p) /\ zsum (wns cols p) = wn P p.
+Definition children_polys cs c istart (e : entry) : list (list pt) := map (fun ch => map (vpos cs c istart) ch) e.
+Lemma wns_children cs c istart e p : wns (children_polys cs c istart e) p = child_wns cs c istart e p.
+Proof. unfold wns, children_polys, child_wns. now rewrite map_map. Qed.
+Lemma wns_app a b p : wns (a ++ b) p = wns a p ++ wns b p.
+Proof. unfold wns. apply map_app. Qed.
+Lemma all01_app a b : all01 (a ++ b) <-> all01 a /\ all01 b.
+Proof. unfold all01. apply Forall_app. Qed.
+Lemma tiles_exactly_one P cols : tiles P cols ->
+  forall p, (wn P p = 1%Z -> exactly_one (wns cols p)) /\ (wn P p = 0%Z -> forall j, nth j (wns cols p) 0%Z = 0%Z).
+Proof.
+  intros H p. destruct (H p) as [H01 Hs]. split; intro W.
+  - apply all01_sum1; auto. congruence.
+  - apply all01_sum0; auto. congruence.
+Qed.
+Theorem tiles_compose_ P l1 C l2 G : tiles P (l1 ++ C :: l2) -> tiles C G -> tiles P (l1 ++ G ++ l2).
+Proof.
+  intros HP HC p. destruct (HP p) as [A S]. destruct (HC p) as [A' S'].
+  rewrite wns_app in A, S. change (C :: l2) with ([C] ++ l2) in A, S. rewrite wns_app in A, S.
+  rewrite !wns_app. rewrite !all01_app in *. rewrite !zsum_app in *.
+  cbn [wns map zsum] in S. split; [tauto|]. lia.
+Qed.
+(** one step: some column C of the mesh is replaced by columns G that tile it *)
+Inductive step : list (list pt) -> list (list pt) -> Prop :=
+| step_intro l1 C l2 G : tiles C G -> step (l1 ++ C :: l2) (l1 ++ G ++ l2).
+Inductive steps : list (list pt) -> list (list pt) -> Prop :=
+| steps_nil M : steps M M
+| steps_cons M M' M'' : steps M M' -> step M' M'' -> steps M M''.
+Lemma step_preserves M M' p : step M M' ->
+  zsum (wns M' p) = zsum (wns M p) /\ (all01 (wns M p) -> all01 (wns M' p)).
+Proof.
+  intros [l1 C l2 G HC]. destruct (HC p) as [A' S'].
+  change (C :: l2) with ([C] ++ l2). rewrite !wns_app, !zsum_app, !all01_app. cbn [wns map zsum].
+  split; [lia|tauto].
+Qed.
+Theorem steps_preserve_ M M' : steps M M' ->
+  forall p, zsum (wns M' p) = zsum (wns M p) /\ (all01 (wns M p) -> all01 (wns M' p)).
+Proof.
+  induction 1 as [M|M M' M'' _ IH Hs]; intro p; [tauto|].
+  destruct (IH p) as [E A]. destruct (step_preserves _ _ p Hs) as [E' A']. split; [lia|tauto].
+Qed.
+(** the property text, for a whole mesh and a whole history of edits: a point that lay in exactly
+    one column of the original mesh lies in exactly one column afterwards, a point that lay in
+    none lies in none *)
+Theorem steps_tile_ M M' : steps M M' -> forall p, all01 (wns M p) ->
+  (zsum (wns M p) = 1%Z -> exactly_one (wns M' p)) /\
+  (zsum (wns M p) = 0%Z -> forall j, nth j (wns M' p) 0%Z = 0%Z).
+Proof.
+  intros H p A. destruct (steps_preserve_ _ _ H p) as [E A']. split; intro W.
+  - apply all01_sum1; auto. lia.
+  - apply all01_sum0; auto. lia.
+Qed.
+(** the modelled operations are tiling steps *)
+Lemma tiles_of_subdivision cs c istart sides e :
+  subdivision_ok (length cs) istart sides e = true ->
+  enodup (expected_boundary (length cs) sides) = true ->
+  children_simple cs c istart e -> tiles cs (children_polys cs c istart e).
+Proof.
+  intros Hs Hx Hg p. rewrite wns_children. split; [apply children_simple_01; auto|].
+  apply (subdivision_wn_ cs c istart sides e p Hs Hx).
 Qed.
